@@ -11,6 +11,8 @@ tests = None
 variant = ''
 goflags = ''
 patch_override = ''
+root = '/tmp/seed'
+dstvar = None
 i = 0
 while i < len(extra):
     if extra[i] == '--check': checks = extra[i+1].split(','); i += 2
@@ -18,8 +20,10 @@ while i < len(extra):
     elif extra[i] == '--variant': variant = extra[i+1]; i += 2
     elif extra[i] == '--goflags': goflags = extra[i+1]; i += 2
     elif extra[i] == '--patch': patch_override = extra[i+1]; i += 2
+    elif extra[i] == '--root': root = extra[i+1]; i += 2
+    elif extra[i] == '--as': dstvar = extra[i+1]; i += 2
     else: i += 1
-wt = f'/tmp/seed/{ID}{variant}'
+wt = f'{root}/{ID}{variant}'
 env = dict(os.environ, GOFLAGS='-mod=mod', GOPROXY='off', GOTOOLCHAIN='auto')
 def sh(cmd, cwd=wt, timeout=3000):
     p = subprocess.run(cmd, shell=True, cwd=cwd, env=env, capture_output=True, text=True, timeout=timeout)
@@ -39,7 +43,7 @@ with_change_fails = ('FAIL' in o1) and ('ok  ' not in o1.splitlines()[-1] if o1.
 without_passes = o2.strip().splitlines()[-1].startswith('ok') if o2.strip() else False
 out['demo_with_change'] = 'FAIL' if with_change_fails else 'PASS(!)'
 out['demo_without_change'] = 'PASS' if without_passes else 'FAIL(!)'
-dst = f'/verif/seeded/{ID}{variant}'
+dst = f'/verif/seeded/{ID}{dstvar if dstvar is not None else variant}'
 shutil.rmtree(dst, ignore_errors=True)
 os.makedirs(dst)
 shutil.copy(f'{wt}/SEED/patch.diff', dst)
